@@ -443,7 +443,10 @@ class DiskCache(_CacheBase):
     def get(self, key: Hashable) -> Any:
         """Get a value from the cache by key."""
         if self.with_lru_cache and key in self.lru_cache:
-            return self.lru_cache.get(key)
+            value = self.lru_cache.get(key)
+            if value is not None or key in self.lru_cache:
+                return value
+            # Otherwise evicted from the (shared) LRU cache in between, read from disk
 
         file_path = self._get_file_path(key)
         if file_path.exists():
